@@ -189,6 +189,48 @@ def run(ctx):
             ok_ = 'every node' in covered or covered == {'Terminal', 'Chance', 'Player'}
             ctx.verdict(ok_, rule, rule + ':every-node-kind', 'along every path the payoffs of the outcome attached to a terminal, a chance node and a player node are all added before the sums are compared', gg.where(sorted(arms.values())[0][0]),
                         'outcome payoffs accumulated at: %s' % sorted(covered), breaks='a file whose only non-constant-sum payoffs sit on a chance (or player) node is accepted and solved as if it were constant sum')
+        # the running sum handed to the children (and compared at the leaves) is the *updated* one
+        acc_locals = set()
+        for bi, st, pl, rhs in q.stores(gg):
+            rr = strip_refs(rhs)
+            if rr[0] == 'bin' and rr[1] == 'Add' and norm(rr[2]) == norm(pl):
+                for x in facts.walk(pl):
+                    if q.is_call(x, 'iter_mut') and x[2]:
+                        for y in facts.walk(x[2][0]):
+                            if y[0] == 'var' and gg.locals[y[1]]['ty'] == '[f64; 2]':
+                                acc_locals.add(y[1])
+        changed_ = True
+        while changed_ and acc_locals:
+            changed_ = False
+            for l_, ds_ in gg.defs.items():
+                if l_ in acc_locals or gg.locals[l_]['ty'] != '[f64; 2]':
+                    continue
+                for d_ in ds_:
+                    if d_[0] == 'assign' and d_[3]['r'] == 'use' and d_[3]['a'].get('o') in ('copy', 'move') and not d_[3]['a']['pl']['p'] and d_[3]['a']['pl']['l'] in acc_locals:
+                        acc_locals.add(l_)
+                        changed_ = True
+        stale = []
+        n_q = 0
+        for bi, t, e in q.calls_named(gg, 'extend'):
+            mp = q.find_sub(e[2][1], lambda x: q.is_call(x, 'map')) if len(e[2]) > 1 else None
+            cf, agg = q.closure_of(b, mp[2][1]) if mp is not None and len(mp[2]) > 1 else (None, None)
+            if cf is None or not cf.is_closure or agg is None:
+                continue
+            rr = strip_refs(q.ret_expr(cf))
+            if not (rr[0] == 'agg' and rr[1] == 'tuple' and len(rr[2]) == 2):
+                continue
+            comp = strip_refs(rr[2][1])
+            if comp[0] != 'upvar' or '[f64; 2]' not in cf.upvar_tys.get(comp[1], '') or comp[1] >= len(agg[2]):
+                continue
+            n_q += 1
+            cap = strip_refs(agg[2][comp[1]])
+            if cap[0] == 'var' and cap[1] in acc_locals:
+                continue
+            if q.find_sub(cap, lambda x: q.is_call(x, 'pop')) is not None or (cap[0] in ('field', 'downcast') and acc_locals):
+                stale.append((gg.where(bi), facts.show(cap)[:50]))
+        if acc_locals and n_q:
+            ctx.verdict(not stale, rule, rule + ':children-get-updated-sum', 'the per-path sum queued for a node\'s children is the one to which that node\'s outcome has been added', gg.where(0),
+                        '%d queueing site(s); queued straight from the popped item (before the update): %s' % (n_q, stale), breaks='payoffs attached to a decision (or chance) node are left out of the constant-sum check below it')
     # ---------------- (3) guards in the gambit reader
     rule = 'C17.gambit-guards'
     fs = ctx.fn('bin', 'gambit::from_str', rule)
